@@ -14,7 +14,10 @@ META = {
             'counter within the int range, no loop out of fuel, result never longer than the input); parseFormatSpec, '
             'applyPadding (32-bit range checks, |result| <= max(|value|, width), and the bound is attained: finding F6), '
             'ShortFileToken, parsePattern, the token loop with the saturating pending-remove counter (|result| <= sum of '
-            'max(|value|, width)) and PrettyFormatter\'s table index / width arithmetic are total as well. The models are tied to '
+            'max(|value|, width)) and PrettyFormatter\'s table index / width arithmetic are total as well. file / function / category '
+            'may each be the NULL POINTER (rawmsg: options; null formats exactly as "", every placeholder has a value on the all-null '
+            'context); an all-digit width text is accepted iff its mathematical value fits an int (no wrap-around: a width of ten or '
+            'more digits is never a format spec). The models are tied to '
             'the code by constants re-read from the source on every run and by comparing their outputs with the real library; '
             'what no Gallina model reaches (PCRE2/QRegularExpression, Qt allocation, QJsonDocument, C++ memory safety) is covered '
             'only by the ASan+UBSan run of the real library with a time budget - bounded search, not proof.',
@@ -884,7 +887,8 @@ def run():
             chk.fail('corpus request fails: %s' % rep[:300], {'kind': kind, 'report': rep[-1500:]}, kind=kind)
             continue
         env = SAN_ENV if exe == san else None
-        key = (kind, first_report_line(rep)[:80] if kind == 'crash' else '')
+        import re
+        key = (kind, re.sub(r'==\d+==|/tmp/\S*?/repo/', '', first_report_line(rep))[:80] if kind == 'crash' else '')
         if key in seen:
             continue
         seen.add(key)
